@@ -8,17 +8,43 @@ C18 — stores are linearizable per key under concurrent access.
 threads, any programs.  A finished execution is linearizable if its completed operations can be put in a total
 order that (i) respects real time, (ii) is a legal run of the atomic register `specStep` producing exactly the
 observed responses and (iii) ends in the final stored value (`MemConc.isLinearization`).
+
+Proof method (`Lemmas/MemConc*.lean`): linearization points with ghost state.  `set`/`set_partial` linearize when
+they take the cell's write lock (the *logical* value of a write-locked cell already accounts for the pending
+write), `erase` linearizes at its map update and first linearizes ("helps") every reader that already holds the
+Arc of the cell it orphans, a read hit linearizes at its read unless it was helped, a miss at the map lookup,
+`size` at its single step.
 -/
 namespace Zarrs.C18
 open Zarrs Zarrs.MemConc
+
+/-- programs / schedule used to document that the hypotheses below are satisfiable: the `get` of thread 1 takes the
+Arc of the cell while thread 0's `set` holds its write lock, the cell is then orphaned by thread 0's `erase`, and
+the `get` completes on the orphan; thread 1's `set_partial` re-creates the key while thread 2 reads it -/
+def exPs : Progs := [[.set [1, 2], .erase], [.get, .setPartial 1 [9]], [.size, .get]]
+def exSched : List Nat := [0, 1, 0, 2, 0, 1, 1, 2, 1, 2]
+/-- the same with whole-value writes only -/
+def exPsW : Progs := [[.set [1, 2], .erase], [.get, .set [9]], [.size, .get]]
 
 /-- **MemoryStore, repaired protocol**: every complete execution is linearizable and the final value is that of
 the last write in the linearization order. -/
 theorem mem_linearizable (ps : Progs) (i0 : Option Bytes) (sched : List Nat) (hs : ∀ t ∈ sched, t < ps.length)
     (s : State) (h : List Done) (hrun : history .fixed ps i0 sched = some (s, h))
     (hfin : allFinished ps s = true) :
-    ∃ order, isLinearization i0 h order (finalValue s) = true := by
-  sorry
+    ∃ order, isLinearization i0 h order (finalValue s) = true :=
+  linearizable_fixed ps i0 sched hs s h hrun hfin
+
+/-- non-vacuity of `mem_linearizable`: a complete execution with 3 threads and 6 overlapping operations -/
+example : ∃ s h, history .fixed exPs none exSched = some (s, h) ∧ allFinished exPs s = true ∧
+    (∀ t ∈ exSched, t < exPs.length) ∧ h.length = 6 ∧ finalValue s = some [0, 9] := by
+  have key : (history .fixed exPs none exSched).map (fun x => (allFinished exPs x.1, x.2.length, finalValue x.1)) =
+      some (true, 6, some [0, 9]) := by decide
+  cases hh : history .fixed exPs none exSched with
+  | none => rw [hh] at key; cases key
+  | some x =>
+    rw [hh] at key
+    simp only [Option.map_some, Option.some.injEq, Prod.mk.injEq] at key
+    exact ⟨x.1, x.2, rfl, key.1, by decide, key.2.1, key.2.2⟩
 
 /-- a reader never observes a value that no writer wrote (no empty / half-updated value): every `get` response of
 the repaired protocol is the initial value or the result of applying a prefix-closed sequence of the programs'
@@ -27,13 +53,38 @@ theorem mem_get_observes_written (ps : Progs) (i0 : Option Bytes) (sched : List 
     (hsets : ∀ p ∈ ps, ∀ op ∈ p, (∀ o v, op ≠ .setPartial o v))
     (s : State) (h : List Done) (hrun : history .fixed ps i0 sched = some (s, h)) (hfin : allFinished ps s = true) :
     ∀ d ∈ h, ∀ b, d.res = .bytes (some b) → d.op = .get →
-      (some b = i0 ∨ ∃ p ∈ ps, Op.set b ∈ p) := by
-  sorry
+      (some b = i0 ∨ ∃ p ∈ ps, Op.set b ∈ p) :=
+  get_observes_written ps i0 sched hs hsets s h hrun hfin
+
+/-- non-vacuity of `mem_get_observes_written`: whole-value programs, a complete execution in which a `get`
+returns `some [1, 2]` -/
+example : (∀ p ∈ exPsW, ∀ op ∈ p, (∀ o v, op ≠ .setPartial o v)) ∧
+    ∃ s h, history .fixed exPsW none exSched = some (s, h) ∧ allFinished exPsW s = true ∧
+      (∀ t ∈ exSched, t < exPsW.length) ∧ ∃ d ∈ h, d.res = .bytes (some [1, 2]) ∧ d.op = .get := by
+  constructor
+  · intro p hp op hop o v
+    simp only [exPsW, List.mem_cons, List.not_mem_nil, or_false] at hp
+    rcases hp with rfl | rfl | rfl <;>
+      (simp only [List.mem_cons, List.not_mem_nil, or_false] at hop; rcases hop with rfl | rfl <;> simp)
+  · have key : (history .fixed exPsW none exSched).map (fun x => (allFinished exPsW x.1,
+        x.2.any (fun d => d.res == .bytes (some [1, 2]) && d.op == .get))) = some (true, true) := by decide
+    cases hh : history .fixed exPsW none exSched with
+    | none => rw [hh] at key; cases key
+    | some x =>
+      rw [hh] at key
+      simp only [Option.map_some, Option.some.injEq, Prod.mk.injEq, List.any_eq_true, Bool.and_eq_true,
+        beq_iff_eq] at key
+      exact ⟨x.1, x.2, rfl, key.1, by decide, key.2⟩
 
 /-- the repaired protocol never gets stuck: from every reachable state some schedule finishes all threads -/
 theorem mem_can_finish (ps : Progs) (i0 : Option Bytes) (s : State) (hr : Reachable .fixed ps i0 s) :
-    ∃ sched s', run .fixed ps s sched = some s' ∧ allFinished ps s' = true := by
-  sorry
+    ∃ sched s', run .fixed ps s sched = some s' ∧ allFinished ps s' = true :=
+  can_finish ps i0 s hr
+
+/-- non-vacuity of `mem_can_finish`: a reachable state in which thread 0 holds the write lock of a fresh cell and
+thread 1 holds its Arc -/
+example : Reachable .fixed exPs none (step .fixed exPs (step .fixed exPs (init exPs none) 0) 1) :=
+  .step _ 1 (.step _ 0 .init (by decide) (by decide)) (by decide) (by decide)
 
 /-- **The code as found is not linearizable**: a reader observes `Some([])` for a key that was never empty -/
 theorem mem_pinned_not_linearizable :
@@ -41,12 +92,21 @@ theorem mem_pinned_not_linearizable :
       allFinished [[.set [1, 2]], [.get]] s = true ∧
       linearizable none h (finalValue s) = false ∧
       (∃ d ∈ h, d.res = .bytes (some [])) := by
-  sorry
+  refine ⟨[0, 1, 1, 0], _, _, (by decide +kernel : history .pinned [[.set [1, 2]], [.get]] none [0, 1, 1, 0] = some (
+    { cells := [[1, 2]], wlock := [none], cur := some 0, pc := [1, 1], ts := [.idle, .idle],
+      out := [[.unit], [.bytes (some [])]] },
+    [⟨1, 0, .get, .bytes (some []), 1, 2⟩, ⟨0, 0, .set [1, 2], .unit, 0, 3⟩])), ?_, ?_, ?_⟩
+  · decide +kernel
+  · decide +kernel
+  · exact ⟨_, List.mem_cons_self, rfl⟩
 
 /-- the executable checker used by the driver is sound and complete for `isLinearization` -/
 theorem linearizable_iff (a0 : Option Bytes) (ops : List Done) (final : Option Bytes) (hnd : ops.Nodup) :
-    linearizable a0 ops final = true ↔ ∃ order, isLinearization a0 ops order final = true := by
-  sorry
+    linearizable a0 ops final = true ↔ ∃ order, isLinearization a0 ops order final = true :=
+  linearizable_iff_exists a0 ops final hnd
+
+/-- non-vacuity of `linearizable_iff`: histories are duplicate-free (here: the history of the example execution) -/
+example : ∀ x ∈ history .fixed exPs none exSched, x.2.Nodup ∧ x.2.length = 6 := by decide
 
 /-- **FilesystemStore, repaired protocol** (size takes the read lock): complete executions of whole-value
 programs are linearizable -/
@@ -54,14 +114,33 @@ theorem fs_linearizable (ps : FsConc.Progs) (i0 : Option Bytes) (sched : List Na
     (hnp : FsConc.noPartial ps = true)
     (s : FsConc.State) (h : List Done) (hrun : FsConc.history .fixed ps i0 sched = some (s, h))
     (hfin : FsConc.allFinished ps s = true) :
-    ∃ order, isLinearization i0 h order s.file = true := by
-  sorry
+    ∃ order, isLinearization i0 h order s.file = true :=
+  FsConc.fs_linearizable_aux ps i0 sched hs hnp s h hrun hfin
+
+/-- non-vacuity of `fs_linearizable`: threads 1 and 2 fetch the lock object while thread 0's `set` holds the write
+lock; a second `set` overlaps an `erase` and a `get` -/
+example : ∃ s h, FsConc.history .fixed FsConc.exPs none FsConc.exSched = some (s, h) ∧
+    FsConc.allFinished FsConc.exPs s = true ∧ FsConc.noPartial FsConc.exPs = true ∧
+    (∀ t ∈ FsConc.exSched, t < FsConc.exPs.length) ∧ h.length = 6 := by
+  have key : (FsConc.history .fixed FsConc.exPs none FsConc.exSched).map
+      (fun x => (FsConc.allFinished FsConc.exPs x.1, x.2.length)) = some (true, 6) := by decide
+  cases hh : FsConc.history .fixed FsConc.exPs none FsConc.exSched with
+  | none => rw [hh] at key; cases key
+  | some x =>
+    rw [hh] at key
+    simp only [Option.map_some, Option.some.injEq, Prod.mk.injEq] at key
+    exact ⟨x.1, x.2, rfl, key.1, by decide, by decide, key.2⟩
 
 /-- **FilesystemStore as found**: `size_key` without the lock observes the truncated file of a `set` in progress -/
 theorem fs_pinned_not_linearizable :
     ∃ sched s h, FsConc.history .pinned [[.set [1, 2]], [.size]] (some [7, 7, 7]) sched = some (s, h) ∧
       FsConc.allFinished [[.set [1, 2]], [.size]] s = true ∧
       linearizable (some [7, 7, 7]) h s.file = false := by
-  sorry
+  refine ⟨[0, 0, 1, 0], _, _, (by decide +kernel :
+    FsConc.history .pinned [[.set [1, 2]], [.size]] (some [7, 7, 7]) [0, 0, 1, 0] = some (
+      { file := some [1, 2], writer := none, pc := [1, 1], ts := [.idle, .idle], out := [[.unit], [.size (some 0)]] },
+      [⟨1, 0, .size, .size (some 0), 2, 2⟩, ⟨0, 0, .set [1, 2], .unit, 0, 3⟩])), ?_, ?_⟩
+  · decide +kernel
+  · decide +kernel
 
 end Zarrs.C18
